@@ -19,7 +19,7 @@ SIGNATURES = {
 }
 # limits of the config-default priors (harness/config/priors/vclasses.yaml), filled lazily by default_limits()
 _DEFAULT_LIMITS = {}
-OPS = {"+": "OAdd", "*": "OMul", "/": "ODiv"}
+OPS = {"+": "OAdd", "*": "OMul", "/": "ODiv", "//": "OFloorDiv", "%": "OMod"}
 UNOPS = {"neg": "UNeg", "abs": "UAbs"}     # ModifiedPrior forms with a ModelTree node (NUn)
 
 
@@ -89,13 +89,17 @@ class Gen:
         self.features.add("arith")
         if self.more_ops and self.rng.random() < 0.5:
             self.features.add("ops2")
-            kind = self.rng.choice(["-", "-", "-", "**", "neg", "neg", "abs", "abs"] if self.pow_ops else
-                                   ["-", "-", "-", "neg", "neg", "abs", "abs"])
+            kind = self.rng.choice(["-", "-", "-", "%", "%", "//", "//", "neg", "neg", "abs", "abs"] + (["**"] if self.pow_ops else []))
             a = self.prior_ref() if (depth >= 1 or self.rng.random() < 0.6) else self.arith_expr(depth + 1)
             if kind in ("neg", "abs"):
                 return {"t": "unary", "op": kind, "a": a}
             if kind == "**":
                 return {"t": "arith", "op": "**", "l": a, "r": {"t": "const", "v": self.rng.choice([2.0, 3.0]).hex()}}
+            if kind in ("%", "//"):
+                # ModPrior / FloorDivPrior: operands of both signs (priors with negative ranges, negative constants), c % p forms
+                b = self.prior_ref() if self.rng.random() < 0.45 else \
+                    {"t": "const", "v": self.rng.choice([0.75, 2.0, -1.5, -0.5, 3.0, 360.0, -2.0]).hex()}
+                return {"t": "arith", "op": kind, "l": a, "r": b} if self.rng.random() < 0.7 else {"t": "arith", "op": kind, "l": b, "r": a}
             b = self.prior_ref() if self.rng.random() < 0.5 else {"t": "const", "v": self.rng.choice([0.5, 2.0, -1.5]).hex()}
             return {"t": "arith", "op": "-", "l": a, "r": b} if self.rng.random() < 0.7 else {"t": "arith", "op": "-", "l": b, "r": a}
         op = self.rng.choice(["+", "*", "/", "+", "*"])
@@ -518,7 +522,7 @@ def tree_ok_for_model(t):
         return not (nm.startswith("_") or nm in ("id", "cls") or not all(32 <= ord(c) < 127 for c in nm))
     if k == "arith":
         if t["op"] not in OPS or not name_ok(t["ln"]) or not name_ok(t["rn"]):
-            return False             # ** // % : no exact value semantics in the model
+            return False             # ** : no exact value semantics in the model
         return tree_ok_for_model(t["l"]) and tree_ok_for_model(t["r"])
     if k == "unary":
         # Log / Log10 (numpy) have no exact semantics; a unary form of a float is not API-constructible
